@@ -173,6 +173,55 @@ func zzH_C12_lines() {
 	}
 }
 
+// the Windows reader on lines put together from the pieces its state machine distinguishes (line feed, carriage return,
+// cursor-positioning and other escape sequences with and without digits, protocol letters, arbitrary bytes), in any
+// order and from an empty line buffer on: an error or a line, never a crash
+func zzH_C12_winTokens() {
+	t := zzTransfer12()
+	t.windowsProtocol = true
+	var line []byte
+	for i := 0; i < verifBound("TOK"); i++ {
+		switch verifNondetRange(0, 6) {
+		case 0:
+			line = append(line, '\n')
+		case 1:
+			line = append(line, '\r')
+		case 2:
+			line = append(line, 0x1b, '[', '5', 'H')
+		case 3:
+			line = append(line, 0x1b, '[', 'H')
+		case 4:
+			line = append(line, 0x1b, '[', '5', 'C')
+		case 5:
+			line = append(line, zzSymBytes12(1)...)
+		default:
+			line = append(line, '#')
+		}
+	}
+	line = append(line, '!')
+	t.buffer.addBuffer(line)
+	go func() { verifQuiesce(); t.stopTransferringFiles(false) }()
+	_, err := t.recvCheck("SUCC", false, nil)
+	if err != nil {
+		verifReach("error")
+	} else {
+		verifReach("line")
+	}
+}
+
+// the pane width the other side announces in its configuration (tmux_pane_width, any 32-bit value) becomes the width
+// of the progress line: rendering one update must not allocate without bound on the strength of that one field
+func zzH_C12_paneWidth() {
+	sink := &zzSink12{}
+	pane := int32(verifNondetInt())
+	p := newTextProgressBar(sink, 80, pane, "", "")
+	p.fileName, p.fileCount, p.fileIdx = "f", 1, 1
+	p.fileSize, p.fileStep = 100, 50
+	out := p.getProgressText("50%", "50.0 B", "--- B/s", "--- ETA")
+	sink.n += len(out)
+	verifReach("rendered")
+}
+
 // escaped data with arbitrary bytes against the escape-all table
 func zzH_C12_unescape() {
 	t := zzMkTable12()
